@@ -164,6 +164,16 @@ func (k *Checker) trackState(n *Node, pre, post *raft.VerifState, ctx *callCtx) 
 			return
 		}
 	}
+	if pre != nil && pre.UnstableSnapshot != nil && post.UnstableSnapshot == nil {
+		// C09 sn.acked: when the install of an accepted snapshot is acknowledged,
+		// the snapshot is the node's log base.
+		k.count("sn.acked")
+		si := pre.UnstableSnapshot.GetMetadata().GetIndex()
+		if post.FirstIndex != si+1 && post.FirstIndex <= si {
+			k.report("C09", "sn.acked", n, fmt.Sprintf("accepted snapshot at %d is no longer pending but the log base is %d", si, post.FirstIndex-1), "")
+			return
+		}
+	}
 	k.checkSelfAck(n, post)
 	if c.viol != nil {
 		return
@@ -459,6 +469,16 @@ func (k *Checker) checkPreVoteCheckQuorum(n *Node, pre, post *raft.VerifState, c
 				return
 			}
 		}
+		// pv.grant: a granted pre-vote response never moves the receiver's term
+		// by itself; the term is raised only by campaigning on a quorum of them
+		// (checked by pv.term_raise).
+		if m.GetType() == pb.MsgPreVoteResp && !m.GetReject() && n.cfg.PreVote {
+			k.count("pv.grant")
+			if post.Term != pre.Term && post.State != raft.StateCandidate {
+				k.report("C17", "pv.grant", n, fmt.Sprintf("a granted MsgPreVoteResp (term %d) from %d moved the node from term %d to term %d without a campaign (state %s)", m.GetTerm(), m.GetFrom(), pre.Term, post.Term, post.State), "")
+				return
+			}
+		}
 		// cq.lease
 		if (m.GetType() == pb.MsgVote || m.GetType() == pb.MsgPreVote) && n.cfg.CheckQuorum && m.GetTerm() > pre.Term &&
 			!bytes.Equal(m.GetContext(), []byte(transferCtx)) &&
@@ -529,6 +549,9 @@ func (k *Checker) checkSnapshotStep(n *Node, pre, post *raft.VerifState, ctx *ca
 	}
 	k.count("sn.install")
 	x := k.nc[n.id]
+	if pre.UnstableSnapshot != nil {
+		k.c.stats.probe("snapshot_arrives_while_one_is_pending")
+	}
 	s := m.GetSnapshot()
 	idx, term := s.GetMetadata().GetIndex(), s.GetMetadata().GetTerm()
 	installed := post.UnstableSnapshot != nil && post.UnstableSnapshot != pre.UnstableSnapshot
@@ -618,6 +641,23 @@ func (k *Checker) checkWire(n *Node, pre, post *raft.VerifState, ctx *callCtx) {
 		fresh = post.Msgs
 	}
 	x := k.nc[n.id]
+	// maintain the set of followers with a pending snapshot transfer
+	if !isLeader(post) || !isLeader(pre) || pre.Term != post.Term {
+		if len(x.snapPending) > 0 {
+			x.snapPending = map[uint64]bool{}
+		}
+	}
+	if x.snapPending == nil {
+		x.snapPending = map[uint64]bool{}
+	}
+	if ctx.what == "ReportSnapshot" || ctx.what == "ApplyConfChange" {
+		// the outcome was reported (for which peer is not visible here: clear all,
+		// which only weakens the oracle), or the membership changed
+		x.snapPending = map[uint64]bool{}
+	}
+	if ctx.msg != nil && ctx.what == "Step" && ctx.msg.GetFrom() != n.id {
+		delete(x.snapPending, ctx.msg.GetFrom())
+	}
 	for _, m := range fresh {
 		switch m.GetType() {
 		case pb.MsgHeartbeat:
@@ -630,6 +670,9 @@ func (k *Checker) checkWire(n *Node, pre, post *raft.VerifState, ctx *callCtx) {
 			k.checkMsgApp(n, x, pre, post, m)
 		case pb.MsgSnap:
 			k.checkSnapWire(n, post, m)
+			if isLeader(post) {
+				x.snapPending[m.GetTo()] = true
+			}
 		}
 		if k.c.viol != nil {
 			return
@@ -649,6 +692,12 @@ func (k *Checker) checkMsgApp(n *Node, x *nodeChk, pre, post *raft.VerifState, m
 		}
 	} else if len(ents) == 1 && raft.VerifEntsSize(ents) > n.cfg.MaxSizePerMsg {
 		k.c.stats.probe("single_entry_over_maxsize")
+	}
+	// C16 fc.snapshot_pending: no append to a follower whose snapshot transfer
+	// is still pending (sent, outcome not reported, nothing heard from it since).
+	if x.snapPending[m.GetTo()] {
+		k.report("C16", "fc.snapshot_pending", n, fmt.Sprintf("MsgApp sent to %d while the snapshot sent to it is still pending (no ReportSnapshot, no response from it)", m.GetTo()), "")
+		return
 	}
 	// C16 fc.snapshot_pause
 	if p0, ok0 := pre.Progress[m.GetTo()]; ok0 {
@@ -774,45 +823,56 @@ func (k *Checker) checkInflight(n *Node, x *nodeChk, pre, post *raft.VerifState,
 	}
 }
 
-// checkUncommitted is C16 fc.uncommitted.
+// checkUncommitted is C16 fc.uncommitted. A = payload bytes of proposals this
+// leadership has accepted, R = payload bytes of the entries whose application
+// has been acknowledged to it during this leadership. raft's own estimate of
+// the uncommitted tail is at least A-R (it only ever subtracts what was
+// applied, saturating at zero), so: a non-empty proposal accepted while
+// A-R > 0 satisfies (A-R) + size <= MaxUncommittedEntriesSize.
 func (k *Checker) checkUncommitted(n *Node, pre, post *raft.VerifState, ctx *callCtx) {
 	x := k.nc[n.id]
 	if !isLeader(pre) || !isLeader(post) || pre.Term != post.Term {
-		x.ucWindow, x.ucTerm = 0, post.Term
-		return
-	}
-	switch ctx.what {
-	case "Advance":
-		x.ucWindow = 0
+		x.ucAccepted, x.ucApplied, x.ucTerm = 0, 0, post.Term
 		return
 	}
 	m := ctx.msg
+	// application acknowledgements
+	if ctx.what == "Advance" {
+		// counted in preCall (Advance clears the messages it steps)
+		return
+	}
 	if m != nil && m.GetType() == pb.MsgStorageApplyResp {
-		x.ucWindow = 0
+		for _, e := range m.GetEntries() {
+			x.ucApplied += uint64(len(e.GetData()))
+		}
 		return
 	}
 	if m == nil || m.GetType() != pb.MsgProp {
 		return
 	}
 	lim := n.cfg.MaxUncommittedEntriesSize
-	if lim == 0 {
-		return
-	}
 	var size uint64
 	for _, e := range m.GetEntries() {
 		size += uint64(len(e.GetData()))
 	}
 	accepted := ctx.err == nil && post.LastIndex > pre.LastIndex
-	k.count("fc.uncommitted")
-	if accepted {
-		if size > 0 && x.ucWindow > 0 && x.ucWindow+size > lim {
-			k.report("C16", "fc.uncommitted", n, fmt.Sprintf("accepted a %d byte proposal with %d bytes already accepted and unapplied, MaxUncommittedEntriesSize is %d", size, x.ucWindow, lim), "fc.uncommitted.accept")
-			return
+	if !accepted {
+		if ctx.err == raft.ErrProposalDropped && size > 0 && pre.LeadTransferee == 0 {
+			k.c.stats.probe("proposal_dropped_at_leader")
 		}
-		x.ucWindow += size
-	} else if ctx.err == raft.ErrProposalDropped && size > 0 && x.ucWindow > 0 {
-		k.c.stats.probe("proposal_dropped_at_leader")
+		return
 	}
+	if lim != 0 {
+		k.count("fc.uncommitted")
+		if x.ucAccepted > x.ucApplied && size > 0 {
+			out := x.ucAccepted - x.ucApplied
+			if out+size > lim {
+				k.report("C16", "fc.uncommitted", n, fmt.Sprintf("accepted a %d byte proposal while at least %d accepted bytes are not yet applied, MaxUncommittedEntriesSize is %d", size, out, lim), "fc.uncommitted.accept")
+				return
+			}
+		}
+	}
+	x.ucAccepted += size
 }
 
 func (k *Checker) checkConfAgainstRef(n *Node, st *raft.VerifState, index uint64, where string) {
